@@ -87,7 +87,6 @@ func tierConfig() tierCfg {
 			hist("confirmed-inserts-restart-insert-confirm", "K1 K2 X I3 C3"),
 			hist("two-at-once-then-late-confirm", "I1 I2 C2 C1"),
 			hist("late-confirms-around-a-restart", "I1 I2 C2 X C1 K3"),
-			hist("every-block-confirmed-on-arrival", "K1 K2 K3 K4 K5"),
 			hist("one-at-a-time-to-4", "I1 C1 I2 C2 I3 C3 I4 C4"),
 			hist("three-at-once", "K1 I2 I3 I4 C4"),
 			hist("restart-after-every-promotion", "K1 X K2 X K3 X K4"),
@@ -109,10 +108,16 @@ func tierConfig() tierCfg {
 func thoroughScheds(h History, s0 *RunLog) []Sched {
 	var out []Sched
 	n := len(s0.StepFg)
+	hasX := false
+	for _, st := range h.Steps {
+		if st == "X" {
+			hasX = true
+		}
+	}
 	for i := 1; i < n-1; i++ { // step i of the S0 run starts at foreground point StepFg[i]
 		for _, span := range []int{1, 2} {
 			j := i + span
-			if j > n-1 {
+			if j > n-1 || (span == 2 && !hasX) {
 				continue
 			}
 			for _, perm := range []int{0, 1, 3} {
@@ -954,7 +959,7 @@ func describeBounds(r *core.Result, cfg tierCfg, setup *Setup) {
 	}
 	schedText := "S0 only (the writer drains at every foreground operation and whenever the node is idle)"
 	if core.Thorough() {
-		schedText = "S0, plus one deviation window each: from the start of step i to the start of step i+1 the writer may perform only k operations, k in {0,1,3} (held completely; stopped after a record's file write; stopped after its position index entry, before the bitcask's offset); from step i to step i+2: k = 0"
+		schedText = "S0, plus one deviation window each: from the start of step i to the start of step i+1 the writer may perform only k operations, k in {0,1,3} (held completely; stopped after a record's file write; stopped after its position index entry, before the bitcask's offset); in histories with a restart also from step i to step i+2 with k = 0"
 	}
 	r.Extra["bounds"] = map[string]interface{}{
 		"chain_blocks":          blockTexts,
